@@ -317,8 +317,8 @@ class CallMixin:
         top = getattr(self.frames[0], "contract", None)
         try:
             for name, v in bound.items():
-                if getattr(v, "unknown", False):
-                    raise Unsupported("argument of unknown content")
+                if getattr(v, "unknown", False) and not (name in ct.params and ct.params[name] == "Opaque"):
+                    raise Unsupported("argument of unknown content")      # (a parameter the contract does not look into may be anything)
                 if name in ct.params:
                     env[name] = self.coerce_param(v, ct.params[name])
                 else:
